@@ -245,6 +245,9 @@ def c01_main(prop="C01"):
             return
         got = bytes.fromhex(arena[0].split(" ", 1)[1]) if len(arena[0]) > 6 else b""
         rep.count("bytes_compared", len(expected_arena))
+        if only_headers and len(rep.cov["samples"]) < 5 and case["kind"] == "hdr" and msg.groups and got == expected_arena and case["n"] > 1:
+            rep.sample({"schema": p.schema.name, "config": str(cfg), "message": msg.name, "numInGroup": case["n"],
+                        "command": case["cmd"], "arena_after_fill": got.hex(), "returned": log})
         if only_headers and case["kind"] == "enc":
             # restrict the comparison to bytes owned by level headers
             idxs = [i for i, o in owner.items() if "#hdr" in o or "#dim" in o]
